@@ -12,6 +12,7 @@ family runs real producer/consumer interpreter processes (different
 PYTHONHASHSEED, -O) as confirmation; it is not the deciding step."""
 from __future__ import annotations
 
+import itertools
 import os
 import pickle
 import subprocess
@@ -59,7 +60,7 @@ def items(tier):
         for v in variants:
             for oi, order in enumerate(ORDERS):
                 out.append(("sym", cls.__module__, cls.__name__, v, order, protos[oi % len(protos)]))
-    out += [("compiled",), ("persistent", 0), ("persistent", 1), ("processes", 0), ("processes", 1)]
+    out += [("compiled",), ("compiled_setorder",), ("persistent", 0), ("persistent", 1), ("processes", 0), ("processes", 1)]
     return out
 
 
@@ -242,6 +243,75 @@ def check_compiled():
     res.paths = 1
     return res
 
+
+
+def check_compiled_setorder():
+    """The argument order of a CompiledExpression must not depend on the hash seed.  The implicit free variables are
+    collected in a Python set, whose iteration order is decided by hash(v) mod table size.  The solver picks hash
+    functions (models of the seeded hash H) that realise each relative slot order of the variables; the producer
+    compiles and pickles under one of them, the consumer unpickles and compiles from source under another."""
+    import pymbolic
+    res = ItemResult(item="compiled expressions: set order under different hash functions",
+                     sample={"family": "CompiledExpression argument order vs hash seed"})
+    c01.install_stub()
+    STUB = c01.STUB
+    q = Query()
+    seed = z3.Int("seedc")
+    cases = [(["x", "X"], lambda v: p.Sum((p.Product((1000, v["x"])), p.Product((7, v["X"]))))),
+             (["b", "B", "a"], lambda v: p.Product((v["a"], p.Sum((v["B"], p.Product((-2, v["b"]))))))),
+             (["n", "m"], lambda v: p.Sum((p.Product((1000, v["n"])), v["m"])))]
+    for names, mk in cases:
+        # hash terms of fresh variables under the symbolic seed
+        STUB.active, STUB.model, STUB.seed = True, None, seed
+        try:
+            hs = {n: p.Variable(n).__hash__().term for n in names}
+        finally:
+            STUB.active = False
+        slot = {n: hs[n] % 8 for n in names}
+        base = [z3.And(hs[n] >= 0, hs[n] < 2 ** 30) for n in names] + [z3.Distinct(*[slot[n] for n in names])]
+        models = []
+        for perm in itertools.permutations(names):
+            cond = [slot[a] < slot[b] for a, b in zip(perm, perm[1:])]
+            verdict, m = q.satisfiable(base + cond)
+            if verdict != "sat":
+                raise HarnessError(f"no hash function realises slot order {perm}")
+            models.append((perm, m))
+        # coverage: every assignment with distinct slots is one of the orders
+        verdict, _ = q.satisfiable(base + [z3.Not(z3.Or(*[z3.And(*[slot[a] < slot[b] for a, b in zip(pm, pm[1:])])
+                                                         for pm, _ in models]))])
+        res.coverage_queries += 1
+        if verdict != "unsat":
+            raise HarnessError("slot orders do not cover")
+        args = [3, 5, 7][:len(names)]
+        for (pp, pm), (cp, cm) in itertools.product(models, repeat=2):
+            res.path_assertions += 1
+            try:
+                STUB.active, STUB.model = True, pm
+                vs = {n: p.Variable(n) for n in names}
+                e1 = mk(vs)
+                order_seen = [v.name for v in {vs[n] for n in names}]       # what a set does under this hash function
+                ce = pymbolic.compile(e1, [])
+                data = pickle.dumps(ce)
+                STUB.model = cm
+                vs2 = {n: p.Variable(n) for n in names}
+                e2 = mk(vs2)
+                ce_back = pickle.loads(data)
+                ce_src = pymbolic.compile(e2, [])
+                got_back, got_src = ce_back(*args), ce_src(*args)
+            except Exception as ex_:  # noqa: BLE001
+                got_back, got_src, order_seen = repr(ex_), None, None
+            finally:
+                STUB.active, STUB.model = False, None
+            if order_seen is not None and tuple(order_seen) != tuple(pp):
+                raise HarnessError(f"model of CPython's set order is wrong: expected {pp}, a set iterates {order_seen}")
+            want = pymbolic.evaluate(mk({n: p.Variable(n) for n in names}), dict(zip(sorted(names), args)))
+            if got_back != got_src or got_src != want:
+                _viol(res, f"compiled-setorder {names} producer={pp} consumer={cp}", "pickle-compiled-order",
+                      f"variables {names}: hash function of the producer puts them in set order {pp}, of the consumer in {cp}; "
+                      f"unpickled function gives {got_back}, compiled from source gives {got_src}, "
+                      f"name order {sorted(names)} gives {want} for arguments {args}")
+    return H.finish(res, [], q)
+
 # }}}
 
 
@@ -407,6 +477,8 @@ def check_item(item, tier):
         return check_sym(("sym",) + tuple(item[1:]), tier, twin=True)
     if k == "compiled":
         return check_compiled()
+    if k == "compiled_setorder":
+        return check_compiled_setorder()
     if k == "persistent":
         return check_persistent(item[1])
     if k == "processes":
